@@ -124,6 +124,12 @@ def motion_notify_rule(ctx, cg=None):
 
 
 def run(ctx):
+    from ..shared import state_alias_rule as _state_alias_rule
+
+    _state_alias_rule(ctx, "R14.11", scope=lambda f, _s=("EasyFEA.FEM", "EasyFEA.Simulations", "EasyFEA.Models"): f.module.name.startswith(_s), min_instances=500)
+    from ..shared import shared_container_rule as _shared_container_rule
+
+    _shared_container_rule(ctx, "R14.12", scope=lambda f, _s=("EasyFEA.FEM", "EasyFEA.Simulations", "EasyFEA.Models"): f.module.name.startswith(_s), min_instances=500)
     repo = ctx.repo
     ctx.level = "other"
     ctx.explanation = (
